@@ -12,10 +12,11 @@ import importlib, math, os, bisect
 from harness import runs
 
 ID = "C01"
-THEOREM_MODULES = ["JF.Props.C01"]
+THEOREM_MODULES = ["JF.Props.C01", "JF.Props.C01Generator"]
 KERNELS = ["c02", "c03", "c04", "c05", "c18"]
 COMPONENTS = []      # filled from the kernels below
-ASSUMPTIONS = ["the step from the balance identity to stationarity of exp(-beta U) for the piecewise-deterministic process, "
+ASSUMPTIONS = ["infinitesimal stationarity (generator level, JF.Props.C01Generator) is proved from the balance identity under integration by parts "
+               "(discharged for a pair on a circle and on a torus); the step from there to invariance under the semigroup of the piecewise-deterministic process, "
                "irreducibility and convergence of histograms are NOT formalised (DESIGN §10); the statistical comparison is a search "
                "for a failing history with deliberately loose thresholds (samples along an event chain are strongly correlated)"]
 TRUSTED = ["reference CDF files under jellyfysh/output (taken as the independently computed distributions the property names)"]
